@@ -63,10 +63,8 @@ Proof.
     + intros fd Q. eapply kstable_get_some; eassumption.
   - intros k. apply sync_at_same with (s := s); try reflexivity. apply B.
   - destruct C. constructor; sp; try assumption.
-    + intros j J. specialize (dy_kern j J). destruct (efd_raw s =? 0);
+    + intros j J. specialize (dy_kern j J). dyk;
         [eapply pipe_ok_kstable|eapply evfd_ok_kstable]; eassumption.
-    + rewrite (kt_flt _ _ S). assumption.
-    + rewrite (kt_flt _ _ S). assumption.
     + intros J. destruct (dy_act J) as (X & (v & V1 & V2) & W). split; [assumption|]. split.
       * destruct (kstable_open _ _ _ _ S V1) as (v' & V1' & Q). destruct (Q X) as (Q1 & _).
         exists v'. split; [assumption|]. rewrite Q1. assumption.
@@ -87,23 +85,14 @@ Proof.
 Qed.
 
 (* the eventfd mode of the raw events changes *)
-Definition ModeOK (s : core) (u : Z) : Prop :=
-  (u = 0 \/ u = 1 \/ u = 2) /\ (u = 0 -> no_eventfd (flt (kern s)) = true) /\
-  (efd_raw s = 0 -> u = 0) /\ (no_eventfd (flt (kern s)) = false -> efd_raw s <> 0 -> u <> 0).
+Definition ModeOK (s : core) (u : Z) : Prop := u = 0 \/ u = 1 \/ u = 2.
 
 Lemma InvE_efd_raw : forall s a u, InvE s -> ModeOK s u -> InvE (set_efd s a u).
 Proof.
-  intros s a u [A B C D E G H] (M1 & M2 & M3 & M4). constructor.
+  intros s a u [A B C D E G H] M1. constructor.
   - eapply FdInv_eq; [exact A|intros; tauto|reflexivity..].
   - intros k. apply sync_at_same with (s := s); try reflexivity. apply B.
   - destruct C. constructor; sp; try assumption.
-    + intros j J. specialize (dy_kern j J).
-      destruct (Z.eqb_spec (efd_raw s) 0) as [Z0|NZ].
-      * rewrite (M3 Z0). exact dy_kern.
-      * assert (u <> 0) by (apply M4; [apply (dy_mode1 NZ j J)|assumption]).
-        destruct (Z.eqb_spec u 0); [contradiction|exact dy_kern].
-    + intros U j J. destruct (Z.eq_dec (efd_raw s) 0) as [Z0|NZ]; [exfalso; apply U; apply M3; assumption|].
-      apply (dy_mode1 NZ j J).
   - exact D.
   - apply (TaskInv_same s); [reflexivity..|exact E].
   - destruct G. constructor; assumption.
@@ -144,11 +133,10 @@ Lemma raw_install_ok : forall s j rfd wfd, InvE s -> 0 <= j <= 16 -> rw_reg s j 
   (forall k', registered (fdt s k') = true -> fdnum (fdt s k') <> rfd) ->
   ep_find (ep (kern s)) rfd = false ->
   (active_ref s = 1 -> rfd <> active_fd s) ->
-  (if efd_raw s =? 0 then pipe_ok (kern s) rfd wfd else evfd_ok (kern s) rfd wfd) ->
-  (efd_raw s <> 0 -> no_eventfd (flt (kern s)) = false) ->
+  (if negb (wfd =? rfd) then pipe_ok (kern s) rfd wfd else evfd_ok (kern s) rfd wfd) ->
   okr (RawPost j s) (raw_install s j rfd wfd).
 Proof.
-  intros s j rfd wfd I J RF D1 O1 INJ ABS ACT KOK MODE. unfold raw_install, RAW_KEY.
+  intros s j rfd wfd I J RF D1 O1 INJ ABS ACT KOK. unfold raw_install, RAW_KEY.
   set (key := 16 + j). set (f := raw_fdo j rfd).
   pose proof (ie_fd _ I) as FI. pose proof (ie_dyn _ I) as DI.
   assert (UR : registered (fdt s key) = false) by (subst key; rewrite (dy_reg _ DI j J); assumption).
@@ -188,7 +176,7 @@ Proof.
     apply (fs_sync _ _ _ S3); [assumption|].
     apply sync_at_same with (s := s); try reflexivity; [apply F2o; assumption|apply (ie_sync _ I)].
   - (* DynInv *)
-    destruct DI. constructor; subst s4; sp; rewrite ?RR, ?RFD, ?RWF, ?(rs_er _ _ RS3), ?(rs_ar _ _ RS3),
+    destruct DI. unfold raw_is_pipe in dy_kern. constructor; unfold raw_is_pipe; subst s4; sp; rewrite ?RR, ?RFD, ?RWF, ?(rs_er _ _ RS3), ?(rs_ar _ _ RS3),
       ?(rs_af _ _ RS3), ?(rs_aw _ _ RS3), ?(rs_tfd _ _ RS3).
     + intros j0. unfold upd. destruct (Z.eqb_spec j0 j) as [->|N]; auto.
     + intros j0 J0. unfold upd. destruct (Z.eqb_spec j0 j) as [->|N]; [exact R3|].
@@ -197,12 +185,10 @@ Proof.
       * intros _. destruct HK as (A&B&C&D&_). fold key. rewrite A, B, C, D. subst f. repeat split.
       * intros J0. destruct (HS (16 + j0)) as (A&B&C&D&_); [subst key; lia|]. rewrite A, B, C, D. auto.
     + intros j0. unfold upd. destruct (Z.eqb_spec j0 j) as [->|N].
-      * intros _. destruct (efd_raw s =? 0);
+      * intros _. destruct (negb (wfd =? rfd));
           [eapply pipe_ok_kctl|eapply evfd_ok_kctl]; eassumption.
-      * intros J0. specialize (dy_kern j0 J0). destruct (efd_raw s =? 0);
+      * intros J0. specialize (dy_kern j0 J0). destruct (negb (rw_wfd s j0 =? rw_rfd s j0));
           [eapply pipe_ok_kctl|eapply evfd_ok_kctl]; eassumption.
-    + destruct K3 as (_&_&_&_&->). assumption.
-    + destruct K3 as (_&_&_&_&->). intros U j0. unfold upd. destruct (Z.eqb_spec j0 j); auto.
     + assumption.
     + intros k0 K0. destruct (HS k0) as (_&B&C&D&_); [subst key; lia|]. unfold hids_ok. rewrite B, C, D. apply (dy_userh k0 K0).
     + intros Q. destruct (dy_act Q) as (X & (v & V1 & V2) & W). split; [assumption|]. split.
@@ -259,15 +245,13 @@ Definition RawFail (s s' : core) : Prop :=
 
 (* the state after the eventfd mode has been updated *)
 Lemma efd_state_ok : forall s k1 u, InvE s -> kstable (kern s) k1 ->
-  (u = 0 \/ u = 1 \/ u = 2) -> (u = 0 -> no_eventfd (flt (kern s)) = true) ->
-  (efd_raw s = 0 -> u = 0) -> (no_eventfd (flt (kern s)) = false -> efd_raw s <> 0 -> u <> 0) ->
+  (u = 0 \/ u = 1 \/ u = 2) ->
   let s1 := set_efd (set_kern s k1) (efd_epoll s) u in
   InvE s1 /\ Fr s s1 /\ EvFr s s1 /\ rw_reg s1 = rw_reg s /\ numobjs s1 = numobjs s /\ trace s1 = trace s /\
   fdt s1 = fdt s /\ active_ref s1 = active_ref s /\ active_fd s1 = active_fd s.
 Proof.
-  intros s k1 u I S U1 U2 U3 U4 s1. pose proof (kt_nwait _ _ S) as NW. split.
-  - subst s1. apply InvE_efd_raw; [apply InvE_kstable; assumption|].
-    unfold ModeOK. sp. rewrite (kt_flt _ _ S). tauto.
+  intros s k1 u I S U1 s1. pose proof (kt_nwait _ _ S) as NW. split.
+  - subst s1. apply InvE_efd_raw; [apply InvE_kstable; assumption|]. exact U1.
   - split; [constructor; subst s1; sp; try reflexivity; try lia; try tauto|].
     split; [constructor; reflexivity|]. repeat split.
 Qed.
@@ -337,10 +321,10 @@ Proof.
     + exact H2.
     + subst s1. sp. rewrite (kt_ep _ _ KS). exact H3.
     + exact H4.
-    + subst s1. sp. rewrite Z0. cbn [Z.eqb]. split; [assumption|]. split; [lia|].
+    + subst s1. sp. replace (next_fd (kern s) + 1 =? next_fd (kern s)) with false by (symmetry; apply Z.eqb_neq; lia).
+      cbn [negb]. split; [assumption|]. split; [lia|].
       eexists _, _. split; [exact OR|]. split; [reflexivity|]. split; [reflexivity|]. split; [reflexivity|].
       split; [exact OW|]. split; reflexivity.
-    + intros Q. contradiction.
     + intros s' (A & B & C & D & E & G). unfold RawRes, RawPost.
       assert (F1 : Fr s s1) by (apply Fr_set_kern; apply (kt_nwait _ _ KS)).
       split; [assumption|]. split; [eapply Fr_trans; [exact F0|]; eapply Fr_trans; eassumption|].
@@ -365,7 +349,7 @@ Proof.
     + (* an eventfd *)
       destruct GS as (-> & KS & KF & OP & NE & EM & U & _). cbn [raw_stage2 raw_finish fst snd].
       destruct (efd_state_ok s k1 u I KS) as (I1 & F1 & E1 & R1 & N1 & T1 & FD1 & AR1 & AF1);
-        [lia|intros Q; lia|intros Q; contradiction|intros _ _; lia|].
+        [lia|].
       cbv zeta in *. set (s1 := set_efd (set_kern s k1) (efd_epoll s) u) in *.
       destruct (fresh_hyps s (next_fd (kern s)) I ltac:(lia)) as (H1 & H2 & H3 & H4).
       eapply okr_weaken; [apply (raw_install_ok s1 j (next_fd (kern s)) (next_fd (kern s)) I1 J)|].
@@ -375,9 +359,8 @@ Proof.
       * rewrite FD1. exact H2.
       * subst s1. sp. rewrite (kt_ep _ _ KS). exact H3.
       * rewrite AR1, AF1. exact H4.
-      * subst s1. sp. destruct (Z.eqb_spec u 0); [lia|]. split; [assumption|]. split; [reflexivity|].
+      * subst s1. sp. rewrite Z.eqb_refl. cbn [negb]. split; [assumption|]. split; [reflexivity|].
         eexists. split; [exact OP|reflexivity].
-      * intros _. subst s1. sp. rewrite (kt_flt _ _ KS). assumption.
       * intros s' (A & B & C & D & E & G). unfold RawRes, RawPost.
         split; [assumption|]. split; [eapply Fr_trans; eassumption|]. split; [eapply EvFr_trans; eassumption|].
         split; [rewrite D, R1; reflexivity|]. split; [rewrite E, N1; reflexivity|rewrite G, T1; reflexivity].
@@ -385,13 +368,13 @@ Proof.
       * contradiction.
       * (* ENOSYS: the mode drops to 0, then the pipe *)
         destruct (efd_state_ok s (kern s) 0 I (kstable_refl _)) as (I1 & F1 & E1 & R1 & N1 & T1 & _);
-          [tauto|intros _; exact NE|tauto|intros Q; congruence|].
+          [tauto|].
         cbv zeta in *. set (s1 := set_efd (set_kern s (kern s)) (efd_epoll s) 0) in *.
         assert (RF1 : rw_reg s1 j = false) by (rewrite R1; assumption).
         apply (raw_pipe_ok s s1 j I1 J RF1 F1 E1 R1 N1 T1). tauto.
       * (* EMFILE *)
         destruct (efd_state_ok s (kern s) (efd_raw s) I (kstable_refl _)) as (I1 & F1 & E1 & R1 & N1 & T1 & _);
-          [apply (dy_modes _ DI)|intros Q; contradiction|tauto|tauto|].
+          [apply (dy_modes _ DI)|].
         cbn [fst snd okr]. unfold RawRes, RawFail. tauto.
 Qed.
 
@@ -476,11 +459,10 @@ Proof.
       apply S4. split; [assumption|]. intros _. rewrite F1. apply U3. assumption.
   - intros k. apply sync_at_same with (s := s); try reflexivity. apply B.
   - destruct C. constructor; sp; try assumption.
-    + intros j J. specialize (dy_kern j J). destruct (U2 j J) as [N1 N2]. destruct (efd_raw s =? 0).
+    + intros j J. specialize (dy_kern j J). destruct (U2 j J) as [N1 N2].
+      change (raw_is_pipe (set_kern s k') j) with (raw_is_pipe s j). destruct (raw_is_pipe s j).
       * apply pipe_ok_close; try assumption. intros v O PK. apply (UP v O PK). assumption.
       * apply evfd_ok_close; assumption.
-    + rewrite S2. assumption.
-    + rewrite S2. assumption.
     + intros Q. destruct (dy_act Q) as (X & (v & V1 & V2) & W). destruct (U3 Q) as [N1 N2]. split; [assumption|]. split.
       * destruct (k_open_close_other (kern s) fd _ v N1 V1) as (v' & Q1 & Q2). exists v'. split; [assumption|]. rewrite Q2. assumption.
       * destruct W as [W|W]; [left; assumption|right]. apply pipe_ok_close; try assumption.
@@ -534,7 +516,7 @@ Qed.
 
 (* ---------- iv_event_raw_unregister ---------- *)
 Definition close_pair (s : core) (r w : Z) : core :=
-  let s := do_close s r in if efd_raw s =? 0 then do_close s w else s.
+  let s := do_close s r in if negb (w =? r) then do_close s w else s.
 
 Lemma do_close_set_rw : forall s fd a b c, set_rw (do_close s fd) a b c = do_close (set_rw s a b c) fd.
 Proof.
@@ -553,12 +535,12 @@ Lemma raw_unregister_unfold : forall s j,
     R (close_pair (set_rw s1 (upd (rw_reg s1) j false) (rw_rfd s1) (rw_wfd s1)) (rw_rfd s1 j) (rw_wfd s1 j))).
 Proof.
   intros s j. unfold raw_unregister. destruct (fd_unregister s (RAW_KEY j)) as [s1|s1]; [|reflexivity].
-  cbn [bind]. f_equal. unfold close_pair. cbv zeta.
+  cbn [bind]. f_equal. unfold close_pair, raw_is_pipe. cbv zeta.
   set (a := upd (rw_reg s1) j false).
-  rewrite !do_close_efd_raw. change (efd_raw (set_rw s1 a (rw_rfd s1) (rw_wfd s1))) with (efd_raw s1).
   destruct (do_close_rw s1 (rw_rfd s1 j)) as (E1 & E2 & E3).
-  destruct (efd_raw s1 =? 0).
-  - destruct (do_close_rw (do_close s1 (rw_rfd s1 j)) (rw_wfd (do_close s1 (rw_rfd s1 j)) j)) as (G1 & G2 & G3).
+  rewrite E2, E3.
+  destruct (negb (rw_wfd s1 j =? rw_rfd s1 j)).
+  - destruct (do_close_rw (do_close s1 (rw_rfd s1 j)) (rw_wfd s1 j)) as (G1 & G2 & G3).
     rewrite G1, G2, G3, E1, E2, E3. rewrite !do_close_set_rw. reflexivity.
   - rewrite E1, E2, E3. rewrite do_close_set_rw. reflexivity.
 Qed.
@@ -570,7 +552,7 @@ Lemma DynInv_unreg : forall s s1 j, DynInv s -> FdStep (16 + j) s s1 -> 0 <= j <
 Proof.
   intros s s1 j D S J RF. pose proof (fs_rest _ _ _ S) as RS. pose proof (fs_kctl _ _ _ S) as K.
   assert (FL : flt (kern s1) = flt (kern s)) by (destruct K as (_&_&_&_&->); reflexivity).
-  destruct D. constructor; sp; rewrite ?(rs_rr _ _ RS), ?(rs_rf _ _ RS), ?(rs_rwf _ _ RS), ?(rs_er _ _ RS),
+  destruct D. unfold raw_is_pipe in dy_kern. constructor; unfold raw_is_pipe; sp; rewrite ?(rs_rr _ _ RS), ?(rs_rf _ _ RS), ?(rs_rwf _ _ RS), ?(rs_er _ _ RS),
     ?(rs_ar _ _ RS), ?(rs_af _ _ RS), ?(rs_aw _ _ RS), ?(rs_tfd _ _ RS), ?FL.
   - intros j0. unfold upd. destruct (Z.eqb_spec j0 j); [discriminate|auto].
   - intros j0 J0. unfold upd. destruct (Z.eqb_spec j0 j) as [->|N]; [assumption|].
@@ -578,9 +560,7 @@ Proof.
   - intros j0. unfold upd. destruct (Z.eqb_spec j0 j) as [->|N]; [discriminate|]. intros J0.
     destruct (fs_hsame _ _ _ S (16 + j0)) as (A&B&C&E&_). rewrite A, B, C, E. auto.
   - intros j0. unfold upd. destruct (Z.eqb_spec j0 j) as [->|N]; [discriminate|]. intros J0.
-    specialize (dy_kern j0 J0). destruct (efd_raw s =? 0); [eapply pipe_ok_kctl|eapply evfd_ok_kctl]; eassumption.
-  - assumption.
-  - intros U j0. unfold upd. destruct (Z.eqb_spec j0 j) as [->|N]; [discriminate|]. apply (dy_mode1 U).
+    specialize (dy_kern j0 J0). destruct (negb (rw_wfd s j0 =? rw_rfd s j0)); [eapply pipe_ok_kctl|eapply evfd_ok_kctl]; eassumption.
   - assumption.
   - intros k0 K0. destruct (fs_hsame _ _ _ S k0) as (_&B&C&E&_). unfold hids_ok. rewrite B, C, E. apply (dy_userh k0 K0).
   - intros Q. destruct (dy_act Q) as (X & (v & V1 & V2) & W). split; [assumption|]. split.
@@ -603,11 +583,11 @@ Lemma raw_facts : forall s j, InvE s -> rw_reg s j = true ->
   let r := rw_rfd s j in let w := rw_wfd s j in let key := 16 + j in
   0 <= j <= 16 /\ registered (fdt s key) = true /\ fdnum (fdt s key) = r /\ 1000 <= r /\
   (forall k', k' <> key -> registered (fdt s k') = true ->
-     fdnum (fdt s k') <> r /\ (efd_raw s = 0 -> fdnum (fdt s k') <> w)) /\
+     fdnum (fdt s k') <> r /\ (raw_is_pipe s j = true -> fdnum (fdt s k') <> w)) /\
   (forall j', j' <> j -> rw_reg s j' = true ->
-     rw_rfd s j' <> r /\ rw_wfd s j' <> r /\ (efd_raw s = 0 -> rw_rfd s j' <> w /\ rw_wfd s j' <> w)) /\
-  (active_ref s = 1 -> active_fd s <> r /\ active_wr s <> r /\ (efd_raw s = 0 -> active_fd s <> w /\ active_wr s <> w)) /\
-  (if efd_raw s =? 0 then pipe_ok (kern s) r w else evfd_ok (kern s) r w).
+     rw_rfd s j' <> r /\ rw_wfd s j' <> r /\ (raw_is_pipe s j = true -> rw_rfd s j' <> w /\ rw_wfd s j' <> w)) /\
+  (active_ref s = 1 -> active_fd s <> r /\ active_wr s <> r /\ (raw_is_pipe s j = true -> active_fd s <> w /\ active_wr s <> w)) /\
+  (if raw_is_pipe s j then pipe_ok (kern s) r w else evfd_ok (kern s) r w).
 Proof.
   intros s j I RJ r w key. pose proof (ie_fd _ I) as FI. pose proof (ie_dyn _ I) as DI.
   pose proof (dy_range _ DI j RJ) as J.
@@ -627,50 +607,56 @@ Proof.
     destruct (dy_obj _ DI j' R') as (A & _).
     assert (16 + j' = key); [|subst key; lia].
     apply (fv_inj _ _ FI); [apply (live_reg _ _ _ FI); rewrite (dy_reg _ DI j' J'); assumption|assumption|congruence]. }
+  (* kinds of the two ends of any registered raw event, whatever its transport *)
+  assert (RKD : forall j', rw_reg s j' = true ->
+            exists v', k_open (kern s) (rw_rfd s j') = Some v' /\ (vkind v' = K_PIPE_R \/ vkind v' = K_EVENTFD)).
+  { intros j' R'. pose proof (dy_kern _ DI j' R') as Q. destruct (raw_is_pipe s j').
+    - destruct Q as (_ & _ & v' & vw' & O' & K' & _). exists v'. auto.
+    - destruct Q as (_ & _ & v' & O' & K'). exists v'. auto. }
+  assert (WKD : forall j', rw_reg s j' = true -> rw_wfd s j' = rw_rfd s j' \/
+            exists vw', k_open (kern s) (rw_wfd s j') = Some vw' /\ vkind vw' = K_PIPE_W /\ vpeer vw' = rw_rfd s j').
+  { intros j' R'. pose proof (dy_kern _ DI j' R') as Q. destruct (raw_is_pipe s j').
+    - destruct Q as (_ & _ & v' & vw' & O' & K' & P' & _ & OW' & KW' & PW'). right. exists vw'. auto.
+    - destruct Q as (_ & E & _). left. exact E. }
+  destruct (RKD j RJ) as (vr & ORr & KRr). fold r in ORr.
+  assert (WNR : forall j', j' <> j -> rw_reg s j' = true -> rw_wfd s j' <> r).
+  { intros j' N R'. destruct (WKD j' R') as [E|(vw' & OW' & KW' & PW')]; [rewrite E; apply INJ; assumption|].
+    eapply kind_neq; [exact OW'|exact ORr|]. rewrite KW'. destruct KRr as [-> | ->]; discriminate. }
+  assert (AF : active_ref s = 1 -> active_fd s <> r /\ active_wr s <> r).
+  { intros A. destruct (dy_act _ DI A) as (X & (va & OA & KA) & WA).
+    pose proof (dy_actraw _ DI A j RJ) as NA. fold r in NA. split; [congruence|].
+    destruct WA as [WA|(_ & _ & va' & vwa & OA' & KA' & PA' & _ & OWA & KWA & PWA)]; [rewrite WA; lia|].
+    eapply kind_neq; [exact OWA|exact ORr|]. rewrite KWA. destruct KRr as [-> | ->]; discriminate. }
   split; [assumption|]. split; [assumption|]. split; [assumption|]. split; [assumption|].
-  destruct (Z.eqb_spec (efd_raw s) 0) as [Z0|NZ].
-  - (* pipes *)
+  destruct (raw_is_pipe s j) eqn:RP.
+  - (* this object is a pipe *)
     destruct KJ as (_ & W1000 & v & vw & OR & KR & PR & PO & OW & KW & PW).
-    assert (PJ : forall j', rw_reg s j' = true -> pipe_ok (kern s) (rw_rfd s j') (rw_wfd s j')).
-    { intros j' R'. pose proof (dy_kern _ DI j' R') as Q. rewrite Z0 in Q. exact Q. }
+    assert (RNW : forall j', rw_reg s j' = true -> rw_rfd s j' <> w).
+    { intros j' R'. destruct (RKD j' R') as (v' & O' & K'). eapply kind_neq; [exact O'|exact OW|].
+      rewrite KW. destruct K' as [-> | ->]; discriminate. }
     split; [|split; [|split]].
     + intros k' N R'. split.
       * rewrite <- FN. intro Q. apply N. apply (fv_inj _ _ FI); [apply (live_reg _ _ _ FI R')|assumption|assumption].
       * intros _. destruct (Z_lt_ge_dec k' 16) as [Lt|Ge].
         -- pose proof (fv_range _ _ FI k' R'). rewrite (fv_user _ _ FI k') by lia. lia.
-        -- destruct (RAWK k' R' ltac:(lia)) as (j' & -> & R'' & ->).
-           destruct (PJ j' R'') as (_ & _ & v' & _ & O' & K' & _).
-           eapply kind_neq; [exact O'|exact OW|]. rewrite K', KW. discriminate.
-    + intros j' N R'. destruct (PJ j' R') as (_ & _ & v' & vw' & O' & K' & P' & _ & OW' & KW' & PW').
-      split; [apply INJ; assumption|]. split.
-      * eapply kind_neq; [exact OW'|exact OR|]. rewrite KW', KR. discriminate.
-      * intros _. split.
-        -- eapply kind_neq; [exact O'|exact OW|]. rewrite K', KW. discriminate.
-        -- eapply peer_neq; [exact OW'|exact OW|]. rewrite PW', PW. apply INJ; assumption.
-    + intros A. destruct (dy_act _ DI A) as (X & (va & OA & KA) & WA).
-      pose proof (dy_actraw _ DI A j RJ) as NA. fold r in NA.
-      assert (AR : active_fd s <> r) by congruence.
-      assert (AW : active_fd s <> w).
-      { eapply kind_neq; [exact OA|exact OW|]. rewrite KW. destruct KA as [(-> & _)|(-> & _)]; discriminate. }
-      destruct WA as [WA|(_ & _ & va' & vwa & OA' & KA' & PA' & _ & OWA & KWA & PWA)].
-      * rewrite WA. repeat split; try assumption; lia.
-      * split; [assumption|]. split; [eapply kind_neq; [exact OWA|exact OR|]; rewrite KWA, KR; discriminate|].
-        intros _. split; [assumption|]. eapply peer_neq; [exact OWA|exact OW|]. rewrite PWA, PW. assumption.
+        -- destruct (RAWK k' R' ltac:(lia)) as (j' & -> & R'' & ->). apply RNW. assumption.
+    + intros j' N R'. split; [apply INJ; assumption|]. split; [apply WNR; assumption|].
+      intros _. split; [apply RNW; assumption|].
+      destruct (WKD j' R') as [E|(vw' & OW' & KW' & PW')]; [rewrite E; apply RNW; assumption|].
+      eapply peer_neq; [exact OW'|exact OW|]. rewrite PW', PW. apply INJ; assumption.
+    + intros A. destruct (AF A) as [A1 A2]. split; [exact A1|]. split; [exact A2|]. intros _.
+      destruct (dy_act _ DI A) as (X & (va & OA & KA) & WA). split.
+      * eapply kind_neq; [exact OA|exact OW|]. rewrite KW. destruct KA as [(-> & _)|(-> & _)]; discriminate.
+      * destruct WA as [WA|(_ & _ & va' & vwa & OA' & KA' & PA' & _ & OWA & KWA & PWA)]; [rewrite WA; lia|].
+        eapply peer_neq; [exact OWA|exact OW|]. rewrite PWA, PW. exact A1.
     + split; [assumption|]. split; [assumption|]. exists v, vw. tauto.
-  - (* eventfds *)
+  - (* this object is an eventfd *)
     destruct KJ as (_ & WR & v & OR & KR).
-    assert (EJ : forall j', rw_reg s j' = true -> evfd_ok (kern s) (rw_rfd s j') (rw_wfd s j')).
-    { intros j' R'. pose proof (dy_kern _ DI j' R') as Q. destruct (Z.eqb_spec (efd_raw s) 0); [contradiction|exact Q]. }
     split; [|split; [|split]].
-    + intros k' N R'. split; [|intros; contradiction].
+    + intros k' N R'. split; [|intros; discriminate].
       rewrite <- FN. intro Q. apply N. apply (fv_inj _ _ FI); [apply (live_reg _ _ _ FI R')|assumption|assumption].
-    + intros j' N R'. destruct (EJ j' R') as (_ & WR' & _).
-      split; [apply INJ; assumption|]. split; [rewrite WR'; apply INJ; assumption|intros; contradiction].
-    + intros A. destruct (dy_act _ DI A) as (X & (va & OA & KA) & WA).
-      pose proof (dy_actraw _ DI A j RJ) as NA. fold r in NA.
-      split; [congruence|]. split; [|intros; contradiction].
-      destruct WA as [WA|(_ & _ & va' & vwa & OA' & KA' & PA' & _ & OWA & KWA & PWA)]; [rewrite WA; lia|].
-      eapply kind_neq; [exact OWA|exact OR|]. rewrite KWA, KR. discriminate.
+    + intros j' N R'. split; [apply INJ; assumption|]. split; [apply WNR; assumption|intros; discriminate].
+    + intros A. destruct (AF A) as [A1 A2]. split; [exact A1|]. split; [exact A2|intros; discriminate].
     + split; [assumption|]. split; [assumption|]. exists v. tauto.
 Qed.
 
@@ -731,19 +717,18 @@ Proof.
       rewrite (rs_af _ _ RS), (rs_aw _ _ RS). intros Q. destruct (FA Q) as (A & B & _). tauto. }
   assert (KO : forall x, k_open (kern s1') x = k_open (kern s) x) by (intros; apply (kctl_open _ _ _ K1)).
   assert (P1 : forall v, k_open (kern s1') r = Some v -> is_pipe v = true -> unrefR s1' (vpeer v)).
-  { intros v O PK. rewrite KO in O. destruct (Z.eqb_spec (efd_raw s) 0) as [Z0|NZ].
+  { intros v O PK. rewrite KO in O. destruct (raw_is_pipe s j) eqn:Z0.
     - destruct KJ as (_ & _ & v0 & vw & OR & KR & PR & _). rewrite OR in O. injection O as <-. rewrite PR.
       split.
       + intros j' Q. change (rw_reg s1') with (upd (rw_reg s1) j false) in Q. destruct (REGJ j' Q) as [N Q'].
-        change (rw_rfd s1') with (rw_rfd s). destruct (FJ j' N Q') as (_ & _ & C). apply C. assumption.
+        change (rw_rfd s1') with (rw_rfd s). destruct (FJ j' N Q') as (_ & _ & C). apply C. reflexivity.
       + change (active_ref s1') with (active_ref s1). rewrite (rs_ar _ _ RS).
         change (active_fd s1') with (active_fd s1). rewrite (rs_af _ _ RS). intros Q.
-        destruct (FA Q) as (_ & _ & C). apply C. assumption.
+        destruct (FA Q) as (_ & _ & C). apply C. reflexivity.
     - destruct KJ as (_ & _ & v0 & OR & KR). rewrite OR in O. injection O as <-.
       unfold is_pipe in PK. rewrite KR in PK. discriminate. }
   destruct (do_close_ok s1' r I1' U1 P1) as (I2 & F2 & C2 & G2 & O2 & B2). cbv zeta in *.
   unfold close_pair. cbv zeta. set (s2 := do_close s1' r) in *.
-  assert (ER2 : efd_raw s2 = efd_raw s) by (rewrite (cs_er _ _ C2); subst s1'; sp; assumption).
   assert (POST : forall s3, InvE s3 -> Fr s2 s3 -> coresame (set_kern s2 (kern s3)) s3 -> RawUnPost j s s3).
   { intros s3 I3 F3 C3. unfold RawUnPost. split; [assumption|].
     split; [eapply Fr_trans; [exact F1|]; eapply Fr_trans; eassumption|].
@@ -757,21 +742,21 @@ Proof.
       rewrite (cs_rr _ _ C2). subst s1'. sp. rewrite RR. reflexivity.
     - rewrite (cs_numobjs _ _ C3). change (numobjs (set_kern s2 (kern s3))) with (numobjs s2).
       rewrite (cs_numobjs _ _ C2). subst s1'. sp. assumption. }
-  rewrite ER2. destruct (Z.eqb_spec (efd_raw s) 0) as [Z0|NZ].
+  change (negb (w =? r)) with (raw_is_pipe s j). destruct (raw_is_pipe s j) eqn:Z0.
   - (* second close *)
     destruct KJ as (_ & W1000 & v0 & vw & OR & KR & PR & PO & OW & KW & PW).
     assert (FD2 : fdt s2 = fdt s1) by (rewrite (cs_fdt _ _ C2); reflexivity).
     assert (U2 : unref s2 w).
     { split; [|split].
-      - intros k' Q. rewrite FD2 in *. destruct (REGK k' Q) as [N Q']. rewrite HS. destruct (FK k' N Q') as [_ B]. apply B. assumption.
+      - intros k' Q. rewrite FD2 in *. destruct (REGK k' Q) as [N Q']. rewrite HS. destruct (FK k' N Q') as [_ B]. apply B. reflexivity.
       - intros j' Q. rewrite (cs_rr _ _ C2) in Q. change (rw_reg (set_kern s1' (kern s2))) with (upd (rw_reg s1) j false) in Q.
         destruct (REGJ j' Q) as [N Q']. rewrite (cs_rf _ _ C2), (cs_rwf _ _ C2).
         change (rw_rfd (set_kern s1' (kern s2))) with (rw_rfd s). change (rw_wfd (set_kern s1' (kern s2))) with (rw_wfd s).
-        destruct (FJ j' N Q') as (_ & _ & C). apply C. assumption.
+        destruct (FJ j' N Q') as (_ & _ & C). apply C. reflexivity.
       - rewrite (cs_ar _ _ C2), (cs_af _ _ C2), (cs_aw _ _ C2).
         change (active_ref (set_kern s1' (kern s2))) with (active_ref s1). change (active_fd (set_kern s1' (kern s2))) with (active_fd s1).
         change (active_wr (set_kern s1' (kern s2))) with (active_wr s1).
-        rewrite (rs_ar _ _ RS), (rs_af _ _ RS), (rs_aw _ _ RS). intros Q. destruct (FA Q) as (_ & _ & C). apply C. assumption. }
+        rewrite (rs_ar _ _ RS), (rs_af _ _ RS), (rs_aw _ _ RS). intros Q. destruct (FA Q) as (_ & _ & C). apply C. reflexivity. }
     assert (P2 : forall v, k_open (kern s2) w = Some v -> is_pipe v = true -> unrefR s2 (vpeer v)).
     { intros v O _. destruct (B2 w v O) as (vv & OV & _ & PV). rewrite KO, OW in OV. injection OV as <-.
       rewrite <- PV, PW. split.
@@ -834,6 +819,6 @@ Proof.
   { intros c x. pose proof (kstable_write (kern s) (rw_wfd s j) c x) as K.
     destruct (k_write (kern s) (rw_wfd s j) c x) as [k1 o]. cbn [fst] in K.
     split; [apply InvW_kstable; assumption|apply Fr_set_kern; apply (kt_nwait _ _ K)]. }
-  destruct (efd_raw s =? 0); apply G.
+  destruct (raw_is_pipe s j); apply G.
 Qed.
 
